@@ -18,7 +18,7 @@ def Ctx.capLimit (cx : Ctx) : Nat :=
   match cx.elem with
   | .u32 => 2305843009213693951        -- isize::MAX / 4
   | .cell => 576460752303423487        -- isize::MAX / 16
-  | .zst => WORD - 1
+  | .zst | .unit => WORD - 1
 
 def Ctx.same (cx : Ctx) : MOut := { data := cx.prev.data, c := cx.prev.c, r := cx.prev.r }
 def Ctx.fail (cx : Ctx) (e : Err) : MOut := { cx.same with status := errStatus e }
@@ -26,10 +26,10 @@ def Ctx.badOp (cx : Ctx) : MOut := { cx.same with status := "bad-op" }
 def Ctx.ofTD (_cx : Ctx) (t : TD Nat) : MOut := { data := t.data, c := t.numCols, r := t.numRows }
 
 /-- values as the element kind stores them (zst: always 0) -/
-def Ctx.v (cx : Ctx) (x : Nat) : Nat := if cx.elem = .zst then 0 else x
+def Ctx.v (cx : Ctx) (x : Nat) : Nat := if cx.elem.isZst then 0 else x
 def Ctx.vs (cx : Ctx) (l : List Nat) : List Nat := l.map cx.v
 /-- drop lists are only tracked for non-`u32` kinds -/
-def Ctx.dr (cx : Ctx) (l : List Nat) : List Nat := if cx.elem = .u32 then [] else l
+def Ctx.dr (cx : Ctx) (l : List Nat) : List Nat := if cx.elem.ledgered then l else []
 
 def parseEvents (s : String) : Option (List (Option Nat)) :=
   if s = "-" then some []
@@ -37,8 +37,8 @@ def parseEvents (s : String) : Option (List (Option Nat)) :=
 
 def nat? (s : String) : Option Nat := s.toNat?
 
-def posTok (cx : Ctx) (p : Nat) : String := if cx.elem = .zst then "0" else toString p
-def winTok (cx : Ctx) (w : Win) : String := if cx.elem = .zst then (if w.len = 0 then "0:0" else s!"0:{w.len}") else fmtWin w
+def posTok (cx : Ctx) (p : Nat) : String := if cx.elem.isZst then "0" else toString p
+def winTok (cx : Ctx) (w : Win) : String := if cx.elem.isZst then (if w.len = 0 then "0:0" else s!"0:{w.len}") else fmtWin w
 
 /-! ### constructors -/
 def stepCtor (cx : Ctx) (op : String) (args : List String) : Option MOut :=
@@ -112,7 +112,7 @@ def stepAccess (cx : Ctx) (rc : Recv) (op : String) (args : List String) : Optio
     let ps : Res (List Nat) := coords.mapM fun cr => rc.indexCoord m cr.1 cr.2
     match ps with
     | .ok ps =>
-      let l := if op = "dump" then ps.map (getD data) else ps.map fun p => if cx.elem = .zst then 0 else p
+      let l := if op = "dump" then ps.map (getD data) else ps.map fun p => if cx.elem.isZst then 0 else p
       pure { cx.same with toks := [toString rc.numCols, toString rc.numRows, fmtList l] }
     | .error e => pure (cx.fail e)
   | "lens", [] =>
